@@ -16,22 +16,22 @@ NA = {
 }
 CLAIMS = {
  "C02": dict(engine="K+S", design="§3 C02", technique="deterministic simulation: generated kernels and API chains (one or two simulated caller threads) on a simulated heap (exact block lengths, dirty memory, moving realloc, tiny capacities); seeded search over problems x heap knobs x histories x schedules",
-   text="Seeded exploration. Every tensor any run of engine K (kernel outputs under all heap knobs and initial capacities) or engine S (real evaluate/operator outputs inside API histories) produces is decoded from the raw C struct with array lengths taken from the simulated heap's block table: pos exact length/starts at 0/non-decreasing, crd strictly increasing and in range per segment, vals long enough, header equals the request; in S additionally used as input, converted, compared, pickled without error and left bit-identical; 30% of the quick S histories are dealt out to two simulated threads that call the same cached methods with arguments of different dimensions (an output must carry its own call's dimensions). The program x format x input dimension is only sampled.",
+   text="Seeded exploration. Every tensor any run of engine K (kernel outputs under all heap knobs and initial capacities) or engine S (real evaluate/operator outputs inside API histories) produces is decoded from the raw C struct with array lengths taken from the simulated heap's block table: pos exact length/starts at 0/non-decreasing, crd strictly increasing and in range per segment, vals long enough, header equals the request; in S additionally used as input, converted, compared, pickled, read (raw and through items()) without error and left bit-identical, and the header (dimensions, modes, ordering) of every named result keeps saying what it said when it was returned (also across floods of 140 other shapes); 30% of the quick S histories are dealt out to two simulated threads that call the same cached methods with arguments of different dimensions (an output must carry its own call's dimensions). The program x format x input dimension is only sampled.",
    note="Trusts the heap model's block table and my own structure builder for inputs; observes the LLVM back end in K and both back ends in S; a clean batch is evidence, not proof."),
  "C04": dict(engine="K", design="§3 C04", technique="deterministic simulation: history assemble; compute; (re-value; compute)* vs evaluate on a simulated heap with garbage twins; seeded search",
    text="Seeded exploration of histories assemble -> compute -> (re-valued compute)* against evaluate, on the simulated heap: compute must make zero heap calls, leave every pos/crd block and the struct pointers byte-identical, write nothing outside the vals block assemble handed over (red zones, checksums), and reproduce evaluate's structure and values bit for bit (dirty vals, stale values from the previous compute, all realloc/zero policies, capacities from 1).",
    note="Relative oracle (never asks whether evaluate itself is right); decided on the LLVM lowering of the three kernels generated in one module."),
  "C05": dict(engine="K", design="§3 C05", technique="deterministic simulation with allocator fault injection: red zones, quarantine+poison, guard-page block placement, input checksums, block table, garbage twins, hypersparse dimensions, crash/hang journal; seeded search",
-   text="Seeded exploration of evaluate/assemble/compute kernels with inputs placed in the simulated arena with exact lengths: red zones on every block, poisoned quarantine for moved/freed blocks, checksums of every block the call did not allocate (inputs untouched), block-table check of everything handed back, return code, garbage twins (same plan under two garbage/red-zone/poison byte triples must give identical outputs and heap-call traces => no observable read of uninitialised/out-of-bounds/stale memory), guard-page placement in 30% of the runs (every array ends at / starts after an inaccessible page, released blocks become inaccessible => any access one element outside an array or through a stale pointer faults even if the value is unused), hypersparse runs (compressed-only dimensions whose products leave int32), signed-overflow traps on the share compiled from C text, per-run watchdog + crash journal for termination.",
+   text="Seeded exploration of evaluate/assemble/compute kernels with inputs placed in the simulated arena with exact lengths: red zones on every block, poisoned quarantine for moved/freed blocks, checksums of every block the call did not allocate (inputs untouched), block-table check of everything handed back, return code, garbage twins (same plan under two garbage/red-zone/poison byte triples must give identical outputs and heap-call traces => no observable read of uninitialised/out-of-bounds/stale memory), guard-page placement in 30% of the runs (every array ends at / starts after an inaccessible page, released blocks become inaccessible => any access one element outside an array or through a stale pointer faults even if the value is unused), hypersparse runs (compressed-only dimensions whose products leave int32), small-stack runs (the history on a 256 KiB thread stack over vectors with thousands of stored entries: a kernel needs O(1) stack), related problems generated in the same process just before the run's problem (storage twins, subsets of kinds), signed-overflow traps on the share compiled from C text, per-run watchdog + crash journal for termination.",
    note="Reads that stay inside a block but hit uninitialised cells and influence nothing observable are not detected; the signed-overflow clause is decided only on the 4-10% of runs compiled from C text (trap) and indirectly through absurd capacities; termination is a wall-clock watchdog; program space only sampled."),
  "C13": dict(engine="S", design="§3 C13", technique="deterministic simulation: seeded histories of API operations against a block life-cycle reference model, free() interposed by an LD_PRELOAD shim, GC disabled and injected at seeded trace lines",
-   text="Seeded exploration of histories {evaluate (32 kernels, two back ends), operators, alias, struct alias, read, pickle, to_format, ==, refused call, del, gc} with gc.collect() injected inside operations: after every operation every block of a reachable tensor is live and unchanged, no arena address is freed twice or unknown, no kernel call leaves a block that is neither handed back nor freed; at every gc operation all blocks of unreachable tensors are freed; at the end nothing is live.",
+   text="Seeded exploration of histories {evaluate (32 kernels, two back ends), operators, alias, struct alias, read, pickle, to_format, ==, refused call, del, gc} with gc.collect() injected inside operations: after every operation every block of a reachable tensor is live and unchanged, no arena address is freed twice or unknown, no kernel call leaves a block that is neither handed back nor freed; at every gc operation all blocks of unreachable tensors are freed; items() iterators stay open across operations and must keep yielding the stored entries whatever was deleted or collected since; bounded exhaustive sweeps enumerate every continuation of length 2-3 over a 13-letter operation alphabet for a seeded producer/consumer pair; at the end nothing is live.",
    note="Immediacy of release is not demanded (release deferred to the next collection is counted, not judged); CPython refcounting, weakrefs and cffi are real; the free() seam is the shim; a process killed by a signal during the sequential warm-up evaluations, reproducible alone, is reported as a crash."),
  "C14": dict(engine="T", design="§3 C14", technique="deterministic simulation: real caller threads under a seeded baton scheduler (sys.settrace line events, heap calls and simulated locks as pre-emption points), simulated heap, injected GC; seeded search over schedules",
-   text="Seeded exploration of schedules: 2-4 (thorough up to 16) simulated caller threads issue evaluate / evaluate_cffi / tensor_method calls over shared and distinct problems, cached and never-seen, on both back ends, while the scheduler pre-empts at line events of tensora and cffi's recompiler, inside running kernels at their heap calls and at simulated-lock operations, and injects collections; park sweeps enumerate every shared-state write of one thread as the parking position, and generation-race sweeps park a thread before each access to module-level generator state that a solo generation was seen to mutate while another thread generates a different kernel. Every concurrent call must return bit for bit what the same call returned alone (or raise the same exception type); no other exception, no deadlock on simulated locks, no crash, heap invariants, every block a call's kernel allocated ends up in that call's output and nobody else's, nothing live after the results are dropped. Every failing schedule is recorded as (thread, thread-local step) -> decision and replays exactly.",
+   text="Seeded exploration of schedules: 2-4 (thorough up to 16) simulated caller threads issue evaluate / evaluate_cffi / tensor_method calls over shared and distinct problems, cached and never-seen, on both back ends, while the scheduler pre-empts at line events of tensora and cffi's recompiler, inside running kernels at their heap calls and at simulated-lock operations, and injects collections; eviction storms park a thread inside a cached method while another compiles more never-seen problems than the kernel cache holds; park sweeps enumerate every shared-state write of one thread as the parking position, and generation-race sweeps park a thread before each access to module-level generator state that a solo generation was seen to mutate while another thread generates a different kernel. Every concurrent call must return bit for bit what the same call returned alone (or raise the same exception type); no other exception, no deadlock on simulated locks, no crash, heap invariants, every block a call's kernel allocated ends up in that call's output and nobody else's, nothing live after the results are dropped. Every failing schedule is recorded as (thread, thread-local step) -> decision and replays exactly.",
    note="Two kernels never execute machine code truly in parallel (a kernel body between two heap calls is an atomic step); locks created dynamically by third-party code stay real (a stall is counted inconclusive, never a violation); files outside the trace allow-list run atomically."),
  "C15": dict(engine="P+G", design="§3 C15", technique="deterministic simulation of the process environment: fresh interpreters with seeded PYTHONHASHSEED executing seeded request histories (library and CLI entry points, cache clears, LRU eviction floods) compared request by request with a canonical baseline interpreter; plus 16 long generation histories (8 hash seeds) cross-compared request by request (engine G)",
-   text="Seeded exploration of histories x hash seeds x entry points: per run a baseline interpreter (hash seed 0, every distinct request once) and a variant interpreter (seeded hash seed; shuffled, repeated requests through generate_code, the CLI with permuted -f / omitted dense formats / stdout or -o, tensor_method with shuffled formats dicts, the private cache entry with formats in another order, evaluate warm / after cache_clear / after an eviction flood; pools contain near-duplicate problems that must not be conflated: other tensor or index names, one other mode ordering, a literal spelled as the other numeric type). Engine G: every worker interpreter is one long history of code-generation requests drawn from a universe of ~1160 related requests (catalogue and seeded problems with operator / structure / literal / rename twins x kinds x language); the same request must have the same outcome at every position of every history in every interpreter (tens of thousands of observations per quick batch). Equal canonical request key => equal text or raw result digest; CLI = library; two requests that receive the identical TensorMethod object must be the same problem (names, index names, every mode and mode ordering, format order).",
+   text="Seeded exploration of histories x hash seeds x entry points: per run a baseline interpreter (hash seed 0, every distinct request once) and a variant interpreter (seeded hash seed; shuffled, repeated requests through generate_code, the CLI with permuted -f / omitted dense formats / stdout or -o, tensor_method with shuffled formats dicts, the private cache entry with formats in another order, evaluate warm / after cache_clear / after an eviction flood; pools contain near-duplicate problems that must not be conflated: other tensor or index names, one other mode ordering, a literal spelled as the other numeric type, one operator exchanged, operators and index lists re-drawn, the formats of two inputs exchanged; evaluate requests pass their keyword arguments in shuffled order). Engine G: every worker interpreter is one long history of code-generation requests drawn from a universe of ~1160 related requests (catalogue and seeded problems with operator / structure / literal / rename twins x kinds x language); the same request must have the same outcome at every position of every history in every interpreter (tens of thousands of observations per quick batch). Equal canonical request key => equal text or raw result digest; CLI = library; two requests that receive the identical TensorMethod object must be the same problem (names, index names, every mode and mode ordering, format order).",
    note="Refused requests are compared by outcome class, not by message text; canonical request keys are computed by the generator from its own expression tree, not by tensora; the pair of interpreters per run costs ~2-7 s, so far fewer runs per hour than the in-process engines."),
 }
 checks = []
